@@ -168,7 +168,7 @@ Qed.
 (* the freshness of the nonce draws is needed: two requests (to two peers without sessions) get
    random packets with the same nonce; three such datagrams are emitted (the second insertion into the
    nonce map replaces the timer of the first request, which is therefore not re-sent) *)
-Definition ex_peer3 : contact := {| c_id := 3; c_addr := 30; c_enr := Some (ex_enr 3 30) |}.
+Definition ex_peer3 : contact := {| c_id := 3; c_addr := 30; c_enr := Some (ex_enr 3 30); c_ed := false |}.
 Definition ex_random_dup_events : list (event * N * draws) :=
   [ (EvRequest ex_peer 100 7, 0, ex_draws2 50);
     (EvRequest ex_peer3 101 7, 1, ex_draws2 50);
